@@ -54,6 +54,14 @@ static int smallint_nonce(unsigned char* nonce32, const unsigned char* msg32, co
     return 1;
 }
 
+/* ECDH "hash" that exposes the raw shared x coordinate */
+static int exh_xdh_raw_x(unsigned char* output, const unsigned char* x32, const unsigned char* ell_a64, const unsigned char* ell_b64, void* data)
+{
+    (void)ell_a64; (void)ell_b64; (void)data;
+    memcpy(output, x32, 32);
+    return 1;
+}
+
 static const unsigned char* msg_pattern(int i, unsigned char* buf)
 {
     int j;
@@ -62,7 +70,7 @@ static const unsigned char* msg_pattern(int i, unsigned char* buf)
     return buf;
 }
 
-/* section: 0 pubkeys, 1 parse, 2 ecdsa sign, 3 ecdsa verify, 4 schnorr sign, 5 schnorr verify, 6 tweak, 7 ellswift.
+/* section: 0 pubkeys, 1 parse, 2 ecdsa sign, 3 ecdsa verify, 4 schnorr sign, 5 schnorr verify, 6 tweak, 7 ellswift, 8 ellswift xdh.
  * [lo,hi) is a range of the section's outer index; level 0 = quick, 1 = thorough. Thread safe after exh_init(). */
 int exh_section(int section, int lo, int hi, int level, exh_emit_fn emit)
 {
@@ -255,6 +263,25 @@ int exh_section(int section, int lo, int hi, int level, exh_emit_fn emit)
                 p += sprintf(p, "EL\t%d\t-1\t", N); p = hexs(p, ell, 64); *p++ = '\t'; p = hexs(p, out, 33); p += sprintf(p, "\t-");
                 emit(line);
             }
+        } else if (section == 8) { /* d in 1..N-1: ElligatorSwift x-only ECDH with every other key e in 1..N-1 (both roles) */
+            int e;
+            unsigned char ab[32], ell_d[64], skd[32];
+            b32(skd, (unsigned long)d);
+            msg_pattern(d, ab);
+            p += sprintf(p, "EZ\t%d\t%d\t", N, d);
+            if (!secp256k1_ellswift_create(ctx, ell_d, skd, ab)) { p += sprintf(p, "-"); emit(line); continue; }
+            for (e = 1; e < N; e++) {
+                unsigned char ske[32], ae[32], ell_e[64], x0[32], x1[32];
+                int ok0, ok1;
+                b32(ske, (unsigned long)e);
+                msg_pattern(e + 3, ae);
+                if (!secp256k1_ellswift_create(ctx, ell_e, ske, ae)) { p += sprintf(p, "x,"); continue; }
+                ok0 = secp256k1_ellswift_xdh(ctx, x0, ell_d, ell_e, skd, 0, exh_xdh_raw_x, NULL);   /* we are party A */
+                ok1 = secp256k1_ellswift_xdh(ctx, x1, ell_e, ell_d, skd, 1, exh_xdh_raw_x, NULL);   /* we are party B */
+                if (!ok0 || !ok1) { p += sprintf(p, "x,"); continue; }
+                p = hexs(p, x0, 32); p += sprintf(p, ":%d,", memcmp(x0, x1, 32) == 0);
+            }
+            emit(line);
         }
     }
     free(line);
